@@ -1293,6 +1293,71 @@ neg("C04", "neg-suback-index-loop", "SUBACK code validation as an index loop",
     [("message/suback.go", "	for i, code := range m.returnCodes {\n		if code != 0x00 && code != 0x01 && code != 0x02 && code != 0x80 {\n			return total, fmt.Errorf(\"suback/Decode: Invalid return code %d for topic %d\", code, i)",
       "	for i := 0; i < len(m.returnCodes); i++ {\n		code := m.returnCodes[i]\n		if code != 0x00 && code != 0x01 && code != 0x02 && code != 0x80 {\n			return total, fmt.Errorf(\"suback/Decode: Invalid return code %d for topic %d\", code, i)")])
 
+# ---------------------------------------------------------------- controls for the rules added after seeded round 2
+SUB = "message/subscribe.go"
+AUTHF = "auth/authenticator.go"
+pos("C13", "acked-fast-path-returns-stale-list", "an early return of Acked hands back the previous call's entries",
+    [(AQ, "	aq.ackdone = aq.ackdone[0:0]\n\n	if aq.ping.State == message.PINGRESP {", "	if aq.empty() && aq.ping.State != message.PINGRESP {\n		return aq.ackdone\n	}\n\n	aq.ackdone = aq.ackdone[0:0]\n\n	if aq.ping.State == message.PINGRESP {")],
+    ["C13/T5-co-update/Acked:result-built-in-this-call"])
+neg("C13", "neg-acked-local-result", "Acked builds its result in a local slice",
+    [(AQ, "	aq.ackdone = aq.ackdone[0:0]\n\n	if aq.ping.State == message.PINGRESP {\n		aq.ackdone = append(aq.ackdone, aq.ping)\n		aq.ping = AckMsg{}\n	}",
+      "	aq.ackdone = nil\n\n	if aq.ping.State == message.PINGRESP {\n		aq.ackdone = append(aq.ackdone, aq.ping)\n		aq.ping = AckMsg{}\n	}")])
+pos("C03", "header-flags-byte-copied", "the decoder keeps a private copy of the type/flags byte",
+    [(HDR, "	h.mtypeflags = src[total : total+1]", "	h.mtypeflags = []byte{src[total]}")],
+    ["C03/T3-dirty-discipline/(*message.header).decode:mtypeflags-is-view-of-input"])
+pos("C03", "connect-username-written-when-flagged", "the encoder writes an empty user name that msglen does not count",
+    [(CONN, "	if m.UsernameFlag() && len(m.username) > 0 {\n		n, err = writeLPBytes(dst[total:], m.username)", "	if m.UsernameFlag() {\n		n, err = writeLPBytes(dst[total:], m.username)")],
+    ["C03/T10-length-writer-agreement/ConnectMessage:username:counted-iff-written"])
+neg("C03", "neg-msglen-nested-guards", "msglen tests flag and length in nested ifs",
+    [(CONN, "	if m.UsernameFlag() && len(m.username) > 0 {\n		total += 2 + len(m.username)\n	}", "	if m.UsernameFlag() {\n		if n := len(m.username); n > 0 {\n			total += 2 + n\n		}\n	}")])
+pos("C03", "setqos-dirty-only-when-lowered", "raising the QoS of a decoded QoS 0 message is not marked dirty",
+    [(PUB, "	if (p > 0) != (v > 0) {\n		m.dirty = true\n	}", "	if p > 0 && v == 0 {\n		m.dirty = true\n	}")],
+    ["C03/T3-dirty-discipline/(*message.PublishMessage).SetQoS:dirty-when-raised-from-0"])
+pos("C04", "header-qos-mask-lost", "the DUP bit is taken for part of the QoS",
+    [(HDR, "	if h.Type() == PUBLISH && !ValidQos((h.Flags()>>1)&0x3) {", "	if h.Type() == PUBLISH && !ValidQos(h.Flags()>>1) {")],
+    ["C04/T1-type-tables/header.decode:ValidQos-argument-reads-bits(0x6)"])
+neg("C04", "neg-header-qos-local", "QoS bits extracted into a local first",
+    [(HDR, "	if h.Type() == PUBLISH && !ValidQos((h.Flags()>>1)&0x3) {", "	qosBits := (h.Flags() & 0x6) >> 1\n	if h.Type() == PUBLISH && !ValidQos(qosBits) {")])
+pos("C04", "lp-length-in-uint16", "the end offset of a length-prefixed field wraps around in uint16",
+    [(MSG, "	n = int(binary.BigEndian.Uint16(buf))\n	total += 2\n\n	if len(buf) < total+n {", "	end := binary.BigEndian.Uint16(buf) + 2\n	n = int(end) - 2\n	total += 2\n\n	if len(buf) < int(end) {")],
+    ["C04/B1-in-bounds/message.readLPBytes"])
+pos("C09", "peek-skips-decode-for-short-packets", "two-byte packets are constructed from their type nibble without Decode",
+    [(SR, "	msg, err = mtype.New()\n	if err != nil {\n		return nil, 0, err\n	}\n\n	n, err = msg.Decode(b)\n	return msg, n, err\n}\n\n// readMessage()", "	msg, err = mtype.New()\n	if err != nil {\n		return nil, 0, err\n	}\n\n	if total == 2 {\n		return msg, 2, nil\n	}\n\n	n, err = msg.Decode(b)\n	return msg, n, err\n}\n\n// readMessage()")],
+    ["C09/P6-on-all-exits/peekMessage:every-packet-goes-through-Decode"])
+neg("C09", "neg-peek-explicit-error", "peekMessage returns nil explicitly after a successful Decode",
+    [(SR, "	n, err = msg.Decode(b)\n	return msg, n, err\n}\n\n// readMessage()", "	n, err = msg.Decode(b)\n	if err != nil {\n		return nil, 0, err\n	}\n	return msg, n, nil\n}\n\n// readMessage()")])
+pos("C09", "readwait-closed-before-data", "the closed flag ends ReadWait although the requested bytes are buffered",
+    [(BUF, "	for ppos = bf.pseq.get(); next > ppos; ppos = bf.pseq.get() {\n		if bf.isDone() {\n			bf.ccond.L.Unlock()\n			return nil, io.EOF\n		}\n\n		bf.ccond.Wait()\n	}", "	for {\n		if bf.isDone() {\n			bf.ccond.L.Unlock()\n			return nil, io.EOF\n		}\n\n		if ppos = bf.pseq.get(); next <= ppos {\n			break\n		}\n\n		bf.ccond.Wait()\n	}")],
+    ["C09/P5-order/ReadWait:closed-flag-tested-only-when-data-is-missing"])
+neg("C09", "neg-readwait-data-test-first", "ReadWait loop with the data test first and an explicit break",
+    [(BUF, "	for ppos = bf.pseq.get(); next > ppos; ppos = bf.pseq.get() {\n		if bf.isDone() {\n			bf.ccond.L.Unlock()\n			return nil, io.EOF\n		}\n\n		bf.ccond.Wait()\n	}", "	for {\n		if ppos = bf.pseq.get(); next <= ppos {\n			break\n		}\n\n		if bf.isDone() {\n			bf.ccond.L.Unlock()\n			return nil, io.EOF\n		}\n\n		bf.ccond.Wait()\n	}")])
+pos("C08", "clone-shares-flag-byte", "Clone is a struct copy that keeps the original's header slices",
+    [(PUB, "	l := m.Len()\n	buf := make([]byte, l)\n	if _, err := m.Encode(buf); err != nil {\n		return nil, err\n	}\n	cm := NewPublishMessage()\n	if _, err := cm.Decode(buf); err != nil {\n		return nil, err\n	}\n	return cm, nil",
+      "	cm := *m\n	cm.topic = append([]byte(nil), m.topic...)\n	cm.payload = append([]byte(nil), m.payload...)\n	cm.dbuf = nil\n	cm.dirty = true\n\n	return &cm, nil")],
+    ["C08/G7-clone-before-mutate/PublishMessage.Clone:shares-nothing-with-the-original"])
+neg("C08", "neg-clone-renamed", "Clone with other local names and an explicit length check",
+    [(PUB, "	l := m.Len()\n	buf := make([]byte, l)\n	if _, err := m.Encode(buf); err != nil {\n		return nil, err\n	}\n	cm := NewPublishMessage()\n	if _, err := cm.Decode(buf); err != nil {\n		return nil, err\n	}\n	return cm, nil",
+      "	image := make([]byte, m.Len())\n	n, err := m.Encode(image)\n	if err != nil {\n		return nil, err\n	}\n	dup := NewPublishMessage()\n	if _, err = dup.Decode(image[:n]); err != nil {\n		return nil, err\n	}\n	return dup, nil")])
+pos("C10", "session-topics-sorted-alone", "Topics() sorts the filters but not the QoS values",
+    [(SESS, "	for k, v := range s.topics {\n		topics = append(topics, k)\n		qoss = append(qoss, v)\n	}\n", "	for k, v := range s.topics {\n		topics = append(topics, k)\n		qoss = append(qoss, v)\n	}\n	sortStrings(topics)\n"),
+     (SESS, "// ID returns the session ID.", "func sortStrings(a []string) {\n	for i := 1; i < len(a); i++ {\n		for j := i; j > 0 && a[j] < a[j-1]; j-- {\n			a[j], a[j-1] = a[j-1], a[j]\n		}\n	}\n}\n\n// ID returns the session ID.")],
+    ["C10/T5-co-update/Session.Topics:parallel-lists-stay-in-step"])
+neg("C10", "neg-session-topics-prealloc", "Topics() preallocates its result lists",
+    [(SESS, "	var (\n		topics []string\n		qoss   []byte\n	)\n", "	topics := make([]string, 0, len(s.topics))\n	qoss := make([]byte, 0, len(s.topics))\n")])
+pos("C10", "session-key-read-before-id-replacement", "the store key is read before an empty client id is replaced",
+    [(SRV, "	if len(req.ClientID()) == 0 {\n		req.SetClientID([]byte(fmt.Sprintf(\"internalclient%d\", svc.id)))\n		req.SetCleanSession(true)\n	}\n\n	cid := string(req.ClientID())\n", "	cid := string(req.ClientID())\n\n	if len(req.ClientID()) == 0 {\n		req.SetClientID([]byte(fmt.Sprintf(\"internalclient%d\", svc.id)))\n		req.SetCleanSession(true)\n	}\n")],
+    ["C10/P9-who-may/getSession:New:key-read-after-id-replacement"])
+pos("C11", "auth-manager-caches-logins", "accepted logins are cached under a key that two different logins can share",
+    [(AUTHF, "func (m *Manager) Authenticate(id string, cred interface{}) error {\n	return m.p.Authenticate(id, cred)\n}", "var okLogins = map[string]bool{}\n\nfunc (m *Manager) Authenticate(id string, cred interface{}) error {\n	key := fmt.Sprint(id, cred)\n	if okLogins[key] {\n		return nil\n	}\n	err := m.p.Authenticate(id, cred)\n	if err == nil {\n		okLogins[key] = true\n	}\n	return err\n}")],
+    ["C11/P6-on-all-exits/auth.Manager.Authenticate:asks-the-provider-about-this-login"])
+neg("C11", "neg-auth-manager-explicit", "Authenticate with an explicit error test",
+    [(AUTHF, "func (m *Manager) Authenticate(id string, cred interface{}) error {\n	return m.p.Authenticate(id, cred)\n}", "func (m *Manager) Authenticate(id string, cred interface{}) error {\n	if err := m.p.Authenticate(id, cred); err != nil {\n		return err\n	}\n	return nil\n}")])
+pos("C07", "subscribe-decode-merges-repeated-filters", "a filter listed twice in one SUBSCRIBE is decoded once",
+    [(SUB, "		m.topics = append(m.topics, t)\n\n		m.qos = append(m.qos, src[total])\n		total++\n", "		if !m.TopicExists(t) {\n			m.topics = append(m.topics, t)\n			m.qos = append(m.qos, src[total])\n		}\n		total++\n")],
+    ["C07/P4-loop-contract/SubscribeMessage.Decode:keeps-every-listed-filter"])
+neg("C07", "neg-subscribe-decode-locals", "decode loop with the QoS byte in a local",
+    [(SUB, "		m.topics = append(m.topics, t)\n\n		m.qos = append(m.qos, src[total])\n		total++\n", "		q := src[total]\n		total++\n		m.topics = append(m.topics, t)\n		m.qos = append(m.qos, q)\n")])
+
 
 def main():
     os.makedirs(OUT, exist_ok=True)
